@@ -71,7 +71,10 @@ class AStr:
             pad = z3.If(_zi(n) - ln > 0, _zi(n) - ln, 0)
             fillch = args[1] if len(args) > 1 else " "
             return AStr(self.lb.concat(I, LB([Fill(pad, ord(fillch))])))
-        if name == "strip" and not args:
+        if name == "strip" and (not args or args[0] == " "):
+            # strip() / strip(" "): padding of spaces is dropped; for a value whose ends are known not to be white space both
+            # forms give the same result (the difference - tabs, line feeds - only exists for values of unknown content, which
+            # are over-approximated below in either case)
             segs = list(self.lb.segs)
             while segs and isinstance(segs[-1], Fill) and segs[-1].value == 32:
                 segs.pop()
